@@ -88,6 +88,9 @@ func ParseIP(b []byte) (IP, []byte, error) {
 		h.Options = append([]byte(nil), b[20:ihl]...)
 		h.CsumOK = Csum(b[:ihl], 0) == 0
 		h.LenOK = h.TotLen == len(b)
+		if h.TotLen != 0 && h.TotLen < ihl { // (0 = segmentation offload on capture: the buffer length is used, as decoders do)
+			return IP{}, nil, fmt.Errorf("total length %d < header length %d", h.TotLen, ihl)
+		}
 		end := len(b)
 		if h.TotLen >= ihl && h.TotLen <= len(b) {
 			end = h.TotLen
